@@ -170,7 +170,13 @@ Definition str_replace (s old new : text) (n : Z) : text :=
 (* strings.Join(words, " ") *)
 Definition join_sp (l : list text) : text := join [32%N] l.
 
-Fixpoint repeat_text (s : text) (n : nat) : text := match n with O => [] | S k => s ++ repeat_text s k end.
+(* the loop of Repeat: for j < count { output.WriteString(text) }, INSTRUMENTED: the second component counts the
+   code points written, i.e. the steps the loop itself takes *)
+Fixpoint repeat_loop (s : text) (n : nat) (out : text) (cells : N) : text * N :=
+  match n with
+  | O => (out, cells)
+  | S k => repeat_loop s k (out ++ s) (cells + N.of_nat (length s))%N
+  end.
 
 Section Ext.
 
@@ -284,7 +290,7 @@ Definition repeat_body (t : text) (count : Z) : res :=
   if (count <? 0)%Z then Ret VErr
   else match t with
        | [] => Ret (VText [])
-       | _ => Ret (VText (repeat_text t (Z.to_nat count)))
+       | _ => Ret (VText (fst (repeat_loop t (Z.to_nat count) [] 0%N)))
        end.
 
 (* Replace(env, args...) *)
@@ -819,7 +825,13 @@ Fixpoint eval_b (B : Z) (ctx : list (text * value)) (e : expr) : option res :=
   end.
 
 (* ------------------------------------------------------------------------------------------------ *)
-(* abstract work: cells touched by the loops that a NUMERIC argument drives *)
+(* work.  Loops of the MODEL are counted by the loops themselves (repeat_loop returns its own step count).
+   Big-integer primitives are atomic in Gallina (Z.mul, Z.quot, Z.pow); their cost is DECLARED next to each use as
+   the number of digit cells of the operands plus the length of the power-of-ten scale factor they build:
+     rescale d e      (Decimal.rescale: 10^|dexp d - e| times or into the coefficient)   dec_size d + |dexp d - e|
+     rescale_pair a b (Add, Sub, Cmp: both brought to the smaller exponent)              the two rescales
+     trunc d          (IntPart / BigInt: rescale to 0)                                    dec_size d + |dexp d|
+   This is a count of cells, not of machine time (multiplying n-digit numbers is super-linear in n). *)
 
 Definition value_size (v : value) : N :=
   match v with
@@ -830,29 +842,51 @@ Definition value_size (v : value) : N :=
 Definition args_size (args : list value) : N := fold_right (fun v a => (value_size v + a)%N) 0%N args.
 Definition res_size (r : res) : N := match r with Ret v => value_size v | _ => 0%N end.
 
-(* Decimal.Round(places): rescale to -places-1 multiplies or divides by 10^|dexp + places + 1| *)
-Definition round_work (d : dec) (places : Z) : N := (dec_size d + Z.abs_N (dexp d + places + 1))%N.
+Definition rescale_cost (d : dec) (e : Z) : N := (dec_size d + Z.abs_N (dexp d - e))%N.
+Definition rescale_pair_cost (a b : dec) : N :=
+  let m := Z.min (dexp a) (dexp b) in (rescale_cost a m + rescale_cost b m)%N.
+Definition trunc_cost (d : dec) : N := rescale_cost d 0.
+
+(* Decimal.Round(places): rescale to -places-1, then one quotient by ten *)
+Definition round_work (d : dec) (places : Z) : N := (rescale_cost d (- places - 1) + 1)%N.
+
+(* ToInteger: IntPart *)
+Definition to_integer_work (v : value) : N := match to_number v with Ok d => trunc_cost d | Bad => 0%N end.
 
 Definition work (f : fname) (args : list value) : N :=
   match f, args with
   | FRepeat, [a0; a1] =>
-      match to_text a0, to_integer a1 with
-      | Ok t, Ok count => if (count <? 0)%Z then 0%N
-                          else match t with [] => 0%N | _ => (Z.to_N count * N.of_nat (length t))%N end
-      | _, _ => 0%N
-      end
+      (to_integer_work a1 +
+       match to_text a0, to_integer a1 with
+       | Ok t, Ok count => if (count <? 0)%Z then 0%N
+                           else match t with [] => 0%N | _ => snd (repeat_loop t (Z.to_nat count) [] 0%N) end
+       | _, _ => 0%N
+       end)%N
   | (FRound | FRoundUp | FRoundDown), a0 :: r =>
       match to_number a0 with
       | Ok d => match r with
                 | [] => round_work d 0
-                | a1 :: _ => match to_integer a1 with
-                             | Ok places => if bad_places places then 0%N else (2 * round_work d places + 2)%N
-                             | Bad => 0%N
-                             end
+                | a1 :: _ => (to_integer_work a1 +
+                              match to_integer a1 with
+                              | Ok places => if bad_places places then 0%N else (2 * round_work d places + 2)%N
+                              | Bad => 0%N
+                              end)%N
                 end
       | Bad => 0%N
       end
+  | FChar, [a0] => to_integer_work a0
   | _, _ => 0%N
+  end.
+
+(* + - and the comparisons: both operands brought to the smaller exponent *)
+Definition binop_work (op : binop) (x y : value) : N :=
+  match op with
+  | OAdd | OSub | OLt | OLte | OGt | OGte =>
+      match to_number x, to_number y with
+      | Ok a, Ok b => rescale_pair_cost a b
+      | _, _ => 0%N
+      end
+  | _ => 0%N
   end.
 
 End Ext.
